@@ -244,6 +244,7 @@ def random_script(rnd, n_steps, profile, streams=None, sizes=None):
 
 MANY_STREAMS = [0, 4, 8, 12, 2, 6, 10, 1, 5, 9, 3, 7, 11]
 PROFILES = {
+    "bulk": {"write": 3, "deliver": 8, "drop": 2, "dup": 0.3, "timer": 4, "tick": 0.5, "ping": 0.3},
     "tailloss": {"write": 6, "deliver": 4, "drop": 4, "timer": 5, "tick": 0.5},
     "flow": {"write": 7, "deliver": 8, "drop": 1.5, "dup": 0.5, "timer": 3, "tick": 1, "reset": 0.4, "stop": 0.2},
     "closing": {"write": 4, "deliver": 6, "drop": 1, "dup": 0.5, "timer": 2, "late": 0.7, "tick": 1, "ping": 0.5,
